@@ -18,6 +18,8 @@ pub mod holder;
 pub mod issuer;
 pub mod utils;
 pub mod verifier;
+#[cfg(sdjwt_verif)]
+mod verif_trace;
 
 pub const DEFAULT_SIGNING_ALG: &str = "ES256";
 const SD_DIGESTS_KEY: &str = "_sd";
